@@ -7,6 +7,10 @@
 (*          (clip uuids); _check_matches: duplicate targets, duplicate     *)
 (*          sources (list length vs set size), target set = annotation set,*)
 (*          source set = prediction set -- one step each                   *)
+(*          (keyed on the uuid of the annotation / prediction, MatchKey =  *)
+(*          "annotation"; history/MC_SchemaRel_target_sound_event.cfg keys *)
+(*          targets on the wrapped sound event and TLC refutes it on cases *)
+(*          where two annotations wrap one sound event)                    *)
 (*  match   Match._validate_match                                          *)
 (*  project _annotations_are_part_of_the_project: loop over the annotated  *)
 (*          clips, error at the first one without a task                   *)
@@ -24,6 +28,8 @@ CONSTANTS MaxLen,        \* all match sequences up to this length (pairing "same
           SortedLen,     \* plus sorted sequences (multisets) of exactly this length (0 = none)
           NoForeignLen,  \* plus sorted sequences without foreign members of exactly this length (0 = none)
           OtherLen,      \* match sequences up to this length for the other three pairings (no foreign members)
+          WrapLen,       \* match sequences up to this length when annotations / predictions share a sound event
+          MatchKey,      \* "annotation" (the code) | "target_sound_event" (control: targets keyed on the wrapped sound event)
           ClipValidator  \* "after" | "before"
 VARIABLES c, path, pc, k, ok
 
@@ -39,7 +45,10 @@ Sorted(q) == \A i, j \in DOMAIN q : i < j => Code(q[i]) <= Code(q[j])
 NoForeign(q) == \A i \in DOMAIN q : q[i][1] <= 2 /\ q[i][2] <= 2
 Local == (0..2) \X (0..2)
 
-CE(na, np, ms, pr) == [kind |-> "ce", na |-> na, np |-> np, ms |-> ms, pairing |-> pr]
+Own == <<1, 2, 3>>                                   \* every annotation / prediction wraps its own sound event
+Wraps == {<<1, 1, 3>>, <<1, 2, 1>>, <<1, 1, 1>>}     \* 1 and 2 share; the foreign one shares with 1; all three share
+CEW(na, np, ms, pr, ase, pse) == [kind |-> "ce", na |-> na, np |-> np, ms |-> ms, pairing |-> pr, ase |-> ase, pse |-> pse]
+CE(na, np, ms, pr) == CEW(na, np, ms, pr, Own, Own)
 ClipPoints == <<0, 5, 9, 10, 100>>          \* ticks whose decimal renderings order differently from their values
 Encs == {"num", "int", "str", "str_num", "num_str"}
 OptFieldOK(f, v) == v # "none" \/ OptionalField(f)
@@ -50,6 +59,10 @@ InitCase ==
           \/ SortedLen > MaxLen /\ \E ms \in SeqsOfLen(Pairs, SortedLen) : Sorted(ms) /\ c = CE(na, np, ms, "same")
           \/ NoForeignLen > SortedLen /\ \E ms \in SeqsOfLen(Local, NoForeignLen) : Sorted(ms) /\ c = CE(na, np, ms, "same")
           \/ \E n \in 0..OtherLen : \E ms \in SeqsOfLen(Local, n) : \E pr \in {"copy", "diff_times", "diff_rec"} : c = CE(na, np, ms, pr)
+    \* annotations (predictions) that wrap one and the same sound event; the other side is kept small
+    \/ \E w \in Wraps, n \in 0..WrapLen :
+          \/ \E na \in 1..2, np \in 0..1 : \E ms \in SeqsOfLen((0..1) \X Side, n) : c = CEW(na, np, ms, "same", w, Own)
+          \/ \E na \in 0..1, np \in 1..2 : \E ms \in SeqsOfLen(Side \X (0..1), n) : c = CEW(na, np, ms, "same", Own, w)
     \/ \E s \in 0..1, t \in 0..1 : c = [kind |-> "match", s |-> s, t |-> t]
     \/ \E tk \in [1..3 -> BOOLEAN], an \in [1..3 -> BOOLEAN] :
           c = [kind |-> "project", task |-> <<tk[1], tk[2], tk[3]>>, ann |-> <<an[1], an[2], an[3]>>]
@@ -72,14 +85,18 @@ CeMatchNull == pc = "ce" /\ k <= Len(c.ms) /\ ~MatchHasSide(c.ms[k]) /\ Fail("E:
 CeMatchesDone == pc = "ce" /\ k > Len(c.ms) /\ Goto("ce_clips") /\ k' = k
 CeClipsOk   == pc = "ce_clips" /\ SameClip(c.pairing) /\ Goto("ce_dup_t") /\ k' = k
 CeClipsBad  == pc = "ce_clips" /\ ~SameClip(c.pairing) /\ Fail("E:clips do not match")
-Targets == SelectSeq([i \in DOMAIN c.ms |-> c.ms[i][2]], LAMBDA x : x # 0)
+\* what the target bookkeeping is keyed on: the annotation itself, or (control) the sound event it wraps
+TKey(t) == IF MatchKey = "target_sound_event" THEN c.ase[t] ELSE t
+Targets == [i \in DOMAIN SelectSeq([i \in DOMAIN c.ms |-> c.ms[i][2]], LAMBDA x : x # 0) |->
+               TKey(SelectSeq([j \in DOMAIN c.ms |-> c.ms[j][2]], LAMBDA x : x # 0)[i])]
+Annotated == {TKey(a) : a \in 1..c.na}
 Sources == SelectSeq([i \in DOMAIN c.ms |-> c.ms[i][1]], LAMBDA x : x # 0)
 CeDupT   == pc = "ce_dup_t" /\ Len(Targets) # Cardinality(Range(Targets)) /\ Fail("E:multiple matches for the same target")
 CeNoDupT == pc = "ce_dup_t" /\ Len(Targets) = Cardinality(Range(Targets)) /\ Goto("ce_dup_s") /\ k' = k
 CeDupS   == pc = "ce_dup_s" /\ Len(Sources) # Cardinality(Range(Sources)) /\ Fail("E:multiple matches for the same source")
 CeNoDupS == pc = "ce_dup_s" /\ Len(Sources) = Cardinality(Range(Sources)) /\ Goto("ce_set_t") /\ k' = k
-CeSetTBad == pc = "ce_set_t" /\ Range(Targets) # 1..c.na /\ Fail("E:not all example sound events were matched")
-CeSetTOk  == pc = "ce_set_t" /\ Range(Targets) = 1..c.na /\ Goto("ce_set_s") /\ k' = k
+CeSetTBad == pc = "ce_set_t" /\ Range(Targets) # Annotated /\ Fail("E:not all example sound events were matched")
+CeSetTOk  == pc = "ce_set_t" /\ Range(Targets) = Annotated /\ Goto("ce_set_s") /\ k' = k
 CeSetSBad == pc = "ce_set_s" /\ Range(Sources) # 1..c.np /\ Fail("E:not all predicted sound events were matched")
 CeSetSOk  == pc = "ce_set_s" /\ Range(Sources) = 1..c.np /\ Goto("built") /\ k' = k
 (* ---- match ---- *)
@@ -128,7 +145,7 @@ ImplIffValid == Terminal => ((pc = "built") <=> Valid(c))
 ImplReasons == (~ok /\ c.kind = "ce") =>
     /\ pc = "E:match between two null objects" => \E i \in DOMAIN c.ms : ~MatchHasSide(c.ms[i])
     /\ pc = "E:clips do not match" => ~SameClip(c.pairing)
-    /\ pc = "E:multiple matches for the same target" => \E a \in 1..3 : Count(c.ms, 2, a) > 1
+    /\ (pc = "E:multiple matches for the same target" /\ MatchKey = "annotation") => \E a \in 1..3 : Count(c.ms, 2, a) > 1
     /\ pc = "E:multiple matches for the same source" => \E p \in 1..3 : Count(c.ms, 1, p) > 1
 Laws == (pc = c.kind /\ k = 1) => LawOrderFree(c) /\ LawCounting(c) /\ LawEmpty
 TerminatesBySafety == Terminal \/ ENABLED Next
